@@ -141,6 +141,10 @@ func generate(n int, seed uint64) []*Case {
 		if x >= 68 && x < 78 && r.Intn(25) != 0 {
 			x = r.Intn(66) // the cut-at-every-byte family yields ~50 cases per draw
 		}
+		if n > 1 && r.Intn(12) == 0 {
+			cases = append(cases, generateReset(1, r.U64())...)
+			continue
+		}
 		switch {
 		case x < 22:
 			lv := r.Pick([]int{0, 1, 6, 9, -2})
